@@ -19,6 +19,14 @@ type Case struct {
 	Items   []midiref.Item
 	BufSize uint32
 	Chunks  []live.Chunk
+	// SameDriver: all option sets are listened to one after the other on the same driver pair
+	// (listen - stop - listen ...) instead of on fresh pairs
+	SameDriver bool `json:",omitempty"`
+	// Order: in same-driver mode the order in which the 8 option sets are listened to (bit 0 active
+	// sense, bit 1 timing clock, bit 2 sysex; 7 = all on, the reference run)
+	Order []int `json:",omitempty"`
+	// Decoy: in same-driver mode a first listening with other options (and another buffer size)
+	Decoy *live.Opts `json:",omitempty"`
 }
 
 func filtered(m []byte, o live.Opts) bool {
@@ -45,13 +53,37 @@ func run(c Case) (res ev.Result) {
 	if !bytes.Equal(stream, live.Concat(c.Chunks)) {
 		c.Chunks = live.Rechunk(stream, 0)
 	}
-	all := live.AllOn
-	all.BufSize = c.BufSize
-	base, failed := live.RunListen(c.Chunks, all)
-	if failed != "" {
-		res.Violation = "all options on: " + failed
-		return
+	runListen := live.RunListen
+	if c.SameDriver {
+		var loop *live.Loop
+		if p := ev.Try(func() { loop = live.NewLoop() }); p != "" {
+			res.Violation = p
+			return
+		}
+		runListen = loop.Run
+		res.Classes = append(res.Classes, "same-driver-listen-stop-listen")
 	}
+	if c.SameDriver && c.Decoy != nil {
+		if _, failed := runListen([]live.Chunk{{Data: []byte{0xF0, 0x01, 0x02, 0x03, 0x04, 0x05, 0xF7, 0xFE, 0xF8, 0x90, 0x01, 0x02}, Delta: 1}}, *c.Decoy); failed != "" {
+			res.Violation = "first listening: " + failed
+			return
+		}
+	}
+	order := []int{7, 0, 1, 2, 3, 4, 5, 6}
+	if c.SameDriver && len(c.Order) == 8 {
+		order = c.Order
+	}
+	results := map[int][]live.Obs{}
+	for _, mask := range order {
+		o := live.Opts{ActiveSense: mask&1 != 0, TimeCode: mask&2 != 0, SysEx: mask&4 != 0, BufSize: c.BufSize}
+		got, failed := runListen(c.Chunks, o)
+		if failed != "" {
+			res.Violation = fmt.Sprintf("options %03b: %s", mask, failed)
+			return
+		}
+		results[mask] = got
+	}
+	base := results[7]
 	// classes / non-trivial: every filterable class present, and a channel message under
 	// running status directly after a filtered message
 	has := map[byte]bool{}
@@ -94,13 +126,17 @@ func run(c Case) (res ev.Result) {
 		res.Classes = append(res.Classes, "running-status-around-filtered")
 	}
 	res.Nontrivial = has[0xFE] && has[0xF8] && has[0xF0] && afterFiltered
-	for mask := 0; mask < 8; mask++ {
+	// with all options on nothing may be missing either (the sender's messages are known)
+	if want := midiref.Expected(c.Items); len(base) != len(want) {
+		res.Violation = fmt.Sprintf("with all options on %d messages arrive, %d were sent%s", len(base), len(want), map[bool]string{true: " (listening again on the same port)", false: ""}[c.SameDriver])
+		return
+	}
+	for mask := 0; mask < 7; mask++ {
 		o := live.Opts{ActiveSense: mask&1 != 0, TimeCode: mask&2 != 0, SysEx: mask&4 != 0, BufSize: c.BufSize}
-		got, failed := live.RunListen(c.Chunks, o)
+		got := results[mask]
 		name := fmt.Sprintf("options{activeSense:%v timingClock:%v sysex:%v}", o.ActiveSense, o.TimeCode, o.SysEx)
-		if failed != "" {
-			res.Violation = name + ": " + failed
-			return
+		if c.SameDriver {
+			name += " (listening again on the same port after stop)"
 		}
 		var want []live.Obs
 		for _, b := range base {
@@ -149,11 +185,19 @@ func genCase(t *rapid.T) Case {
 		c.Items = append(c.Items[:pos:pos], append([]midiref.Item{{Msg: m}}, c.Items[pos:]...)...)
 	}
 	c.Chunks = live.Chunking(t, midiref.Serialise(c.Items), 5000)
+	c.SameDriver = rapid.Bool().Draw(t, "sameDriver")
+	if c.SameDriver {
+		c.Order = rapid.Permutation([]int{0, 1, 2, 3, 4, 5, 6, 7}).Draw(t, "order")
+		if rapid.Bool().Draw(t, "decoy") {
+			c.Decoy = &live.Opts{ActiveSense: rapid.Bool().Draw(t, "dAS"), TimeCode: rapid.Bool().Draw(t, "dTC"), SysEx: rapid.Bool().Draw(t, "dSX"),
+				BufSize: uint32(rapid.SampledFrom([]int{0, 3, 5, 8}).Draw(t, "dBuf"))}
+		}
+	}
 	return c
 }
 
 var options = ev.NewCheck("C14", "option-sets",
-	"rapid: C04 streams and chunkings with extra F8 / FE / sysex density; each stream is run on fresh testdrv loopbacks under all 8 combinations of UseActiveSense / UseTimeCode / UseSysEx; oracle (metamorphic): run(opts) == run(all on) minus the classes whose option is off, equal in content, order and time stamp (relative to a sync message); non-trivial = stream has active sense, timing clock and sysex and a channel message under running status next to (or around) a filtered byte; distinct by case hash",
+	"rapid: C04 streams and chunkings with extra F8 / FE / sysex density; each stream is run under all 8 combinations, either on fresh testdrv loopbacks or one after the other on the same port (listen - stop - listen again, in a drawn order and optionally after a first listening with other options and another sysex buffer size), of UseActiveSense / UseTimeCode / UseSysEx; oracle (metamorphic): run(opts) == run(all on) minus the classes whose option is off, equal in content, order and time stamp (relative to a sync message); non-trivial = stream has active sense, timing clock and sysex and a channel message under running status next to (or around) a filtered byte; distinct by case hash",
 	genCase, run)
 
 func TestPropOptionSets(t *testing.T) { options.Rapid(t, 1000, 30000) }
